@@ -27,7 +27,7 @@
    [rec], [call], [join] (nested queries, scalar functions, joins) are universally quantified:
    the fragment never invokes them. *)
 From Coq Require Import Floats ZArith Sorting.Permutation.
-From GenqlV Require Import Base.Prelude Base.Value Model.Ast Model.Eval Model.Exec Run.EngineRun.
+From GenqlV Require Import Base.Prelude Base.Value Model.Ast Model.Eval Model.Exec Run.EngineRun Model.Join.
 From GenqlV Require Import Spec.PredSem Spec.GroupSpec Spec.ExprSem Spec.DistinctSpec
   Spec.SortSpec Spec.WindowSpec Spec.QuerySpec.
 From GenqlV Require Import Proofs.C03Lemmas Proofs.C05Lemmas Proofs.F64Corollaries Proofs.CapstoneLemmas.
@@ -411,9 +411,9 @@ Proof.
                  Ok [Ex.row3 (VNum 2) (VNum 3) (VStr "multi")]%string) by (vm_compute; reflexivity).
   split; [exact Hs|]. split; [discriminate|].
   do 5 (split; [vm_compute; reflexivity|]). split; [exact Hrun|].
-  destruct (api_run_sem_table no_call no_join 39 [("t"%string, VArr Ex.t6)] Ex.qg "t"%string Ex.t6
+  destruct (api_run_sem_table no_call Join.exec_join 39 [("t"%string, VArr Ex.t6)] Ex.qg "t"%string Ex.t6
               eq_refl eq_refl eq_refl Hs) as (rows & Hapi & Hsem & _).
-  change (api_run no_call no_join 40 false Ex.doc (SSelect Ex.qg) = Ok rows) in Hapi.
+  change (api_run no_call Join.exec_join 40 false Ex.doc (SSelect Ex.qg) = Ok rows) in Hapi.
   unfold run_model, fuel in Hrun. rewrite Hrun in Hapi. inversion Hapi; subst rows. exact Hsem.
 Qed.
 
@@ -435,9 +435,9 @@ Proof.
     by (vm_compute; reflexivity).
   split; [exact Hs|]. split; [split; reflexivity|].
   do 2 (split; [vm_compute; reflexivity|]). split; [exact Hrun|].
-  destruct (api_run_sem_table no_call no_join 39 [("t"%string, VArr Ex.t6)] Ex.qr "t"%string Ex.t6
+  destruct (api_run_sem_table no_call Join.exec_join 39 [("t"%string, VArr Ex.t6)] Ex.qr "t"%string Ex.t6
               eq_refl eq_refl eq_refl Hs) as (rows & Hapi & Hsem & _).
-  change (api_run no_call no_join 40 false Ex.doc (SSelect Ex.qr) = Ok rows) in Hapi.
+  change (api_run no_call Join.exec_join 40 false Ex.doc (SSelect Ex.qr) = Ok rows) in Hapi.
   unfold run_model, fuel in Hrun. rewrite Hrun in Hapi. inversion Hapi; subst rows. exact Hsem.
 Qed.
 
